@@ -36,6 +36,7 @@ type Step struct {
 	Focus    string `json:"focus,omitempty"`
 	Stop     bool   `json:"stop,omitempty"`
 	Loud     bool   `json:"loud,omitempty"` // default logger, errors and warnings not muted (what the CLI does)
+	Warm     string `json:"warm,omitempty"` // the analyzer object has been used before: it first analyses this directory
 
 	// diff
 	Dir1 string `json:"dir1,omitempty"`
